@@ -536,12 +536,57 @@ def _len_atom(e):
     return None
 
 
+LIST_NAMES = {}          # name -> first line from which it may hold something else than a builtin list/dict (set by rules around a truth-table call)
+
+
 def _atom_key(e, atom):
     """(key, positive?) of an atomic test: emptiness tests are one atom per tested expression"""
     la = _len_atom(e)
     if la is not None:
         return 'nonempty(%s)' % atom(la[0]), la[1]
+    if isinstance(e, ast.Name) and e.id in LIST_NAMES and getattr(e, 'lineno', 1e9) < LIST_NAMES[e.id]:
+        return 'nonempty(%s)' % atom(e), True          # the truth value of a builtin list / dict is "not empty"
     return atom(e), True
+
+
+def container_names(fn_node):
+    """local names every assignment of which builds a builtin list / dict / set (display, comprehension, list()/sorted()/as_list()/dict()
+    call, concatenation of such): for these `not x` is `len(x) == 0`"""
+    def builds(v, known):
+        if isinstance(v, (ast.List, ast.ListComp, ast.Dict, ast.DictComp, ast.Set, ast.SetComp)):
+            return True
+        if isinstance(v, ast.Call) and isinstance(v.func, ast.Name) and v.func.id in ('list', 'sorted', 'as_list', 'dict', 'set'):
+            return True
+        if isinstance(v, ast.BinOp) and isinstance(v.op, ast.Add):
+            return builds(v.left, known) and builds(v.right, known)
+        if isinstance(v, ast.Name):
+            return v.id in known
+        if isinstance(v, ast.IfExp):
+            return builds(v.body, known) and builds(v.orelse, known)
+        return False
+    assigns = {}
+    for n in ast.walk(fn_node):
+        if isinstance(n, ast.Assign) and len(n.targets) == 1 and isinstance(n.targets[0], ast.Name):
+            assigns.setdefault(n.targets[0].id, []).append((n.value, n.lineno))
+        elif isinstance(n, (ast.AugAssign, ast.For, ast.With)) or isinstance(n, ast.arg):
+            t = getattr(n, 'target', None)
+            for m in ast.walk(t) if t is not None else []:
+                if isinstance(m, ast.Name):
+                    assigns.setdefault(m.id, []).append((None, getattr(n, 'lineno', 0)))
+            if isinstance(n, ast.arg):
+                assigns.setdefault(n.arg, []).append((None, 0))
+    known = {}
+    for _ in range(3):
+        for k, vs in assigns.items():
+            vs = sorted(vs, key=lambda x: x[1])
+            limit = 1e9
+            for v, ln in vs:
+                if v is None or not builds(v, {kk for kk, lim in known.items() if ln < lim}):
+                    limit = ln
+                    break
+            if limit > vs[0][1]:
+                known[k] = limit
+    return known
 
 
 def bool_eval(e, env, atom=N):
